@@ -23,7 +23,7 @@ for name in names:
         if demo == 0:
             row["status"] = "no longer manifests on /repo HEAD (its own demo passes with the patch applied)"
         for c in [prop] + ALSO.get(name, []):
-            p = subprocess.run(["./check", c, "--tier", "quick"], cwd=V, capture_output=True, text=True)
+            p = subprocess.run(["./check", c, "--tier", "quick"], cwd=V, capture_output=True, text=True, env=dict(os.environ, VERIF_NO_EVIDENCE="1"))
             viol = [l for l in p.stdout.splitlines() if l.startswith("VIOLATION")]
             row["checks"][c] = ("caught: failing input" if any("no-failing-input-found" not in l for l in viol) else
                                 "caught: no-failing-input-found" if viol else "MISSED")
